@@ -30,13 +30,13 @@ type emitted struct {
 // Monitor checks protocol discipline (C07) of one honest node from what was
 // actually delivered to it.
 type Monitor struct {
-	n        *Node
-	deliv    map[uint64][]*delivered
-	emit     map[gpbft.Instant]*emitted
-	prepare0 map[uint64]*gpbft.ECChain // round-0 PREPARE value per instance
-	prepares map[uint64]map[uint64]*emitted
+	n         *Node
+	deliv     map[uint64][]*delivered
+	emit      map[gpbft.Instant]*emitted
+	prepare0  map[uint64]*gpbft.ECChain // round-0 PREPARE value per instance
+	prepares  map[uint64]map[uint64]*emitted
 	Emissions int
-	Labels   map[string]int
+	Labels    map[string]int
 }
 
 func newMonitor(n *Node) *Monitor {
